@@ -22,6 +22,7 @@ from . import fakeif as F
 from . import api_util as A
 from . import bmc_ref as B
 from .c07_spec import SPEC, Bag
+from gen.fieldprobe import wrapper_bit_names
 
 GENS = ['layouts', 'api']
 MODEL_MAP = [
@@ -66,10 +67,10 @@ def canon(v):
     if isinstance(v, Message):
         d = {'__class__': type(v).__name__[:-3]}
         for f in type(v).__fields__:
-            f = getattr(f, '_field', f)
+            f = _inner(f)
             x = getattr(v, f.name)
             if isinstance(x, Bitfield.BitWrapper):
-                d[f.name] = {'__class__': 'bits', **{b.name: getattr(x, b.name) for b in x._bits}}
+                d[f.name] = {'__class__': 'bits', **{n: getattr(x, n) for n in wrapper_bit_names(x)}}
             else:
                 d[f.name] = canon(x)
         return d
@@ -91,6 +92,12 @@ def canon(v):
         d['__class__'] = type(v).__name__
         return d
     raise TypeError('uncanonicalisable %r' % (v,))
+
+
+def _inner(f):
+    from pyipmi.msgs import message as M
+    from gen import fieldprobe
+    return fieldprobe.wrapped(f, M)
 
 
 def c_string(s):
